@@ -57,7 +57,8 @@ var xlateTargets = map[string][]string{
 		"literalCodec.Encode", "literalCodec.Decode",
 		"buffer.Cap", "buffer.Available", "decoderDict.dictLen", "decoderDict.byteAt",
 		"encoderDict.Len", "encoderDict.Pos", "encoderDict.ByteAt", "iverson",
-		"decoder.decodeLiteral", "decoder.readOp", "encoder.writeLiteral", "encoder.writeMatch",
+		"decoder.decodeLiteral", "decoder.readOp", "encoder.writeLiteral", "encoder.writeMatch", "encoder.writeOp",
+		"PropertiesForCode", "Properties.Code",
 	},
 	".": {"padLen", "readUvarint", "readSizeInBlockHeader", "readRecord", "verifyFlags"},
 }
@@ -798,6 +799,18 @@ func (c *xctx) binary(v *ast.BinaryExpr) string {
 		}
 		return fmt.Sprintf("(BitVec.ushiftRight %s %s)", a, n)
 	}
+	for _, side := range []ast.Expr{v.X, v.Y} {
+		if isNilIdent(side) {
+			other := v.X
+			if side == v.X {
+				other = v.Y
+			}
+			if _, isPtr := info.Types[other].Type.(*types.Pointer); isPtr {
+				// a nil pointer has no faithful image (pointers to structs are flattened to values)
+				c.x.fail(v, "pointer compared with nil")
+			}
+		}
+	}
 	var a, b string
 	switch {
 	case isNilIdent(v.Y):
@@ -1359,6 +1372,79 @@ func (c *xctx) stmts(ss []ast.Stmt, k kont) string {
 		code := build(0)
 		c.pre = pre
 		return c.flush(code)
+	case *ast.TypeSwitchStmt:
+		as, ok := v.Assign.(*ast.AssignStmt)
+		var subject ast.Expr
+		var bound *ast.Ident
+		if ok && len(as.Lhs) == 1 && len(as.Rhs) == 1 {
+			bound, _ = as.Lhs[0].(*ast.Ident)
+			if ta, ok := as.Rhs[0].(*ast.TypeAssertExpr); ok {
+				subject = ta.X
+			}
+		} else if es, ok := v.Assign.(*ast.ExprStmt); ok {
+			if ta, ok := es.X.(*ast.TypeAssertExpr); ok {
+				subject = ta.X
+			}
+		}
+		if subject == nil || v.Init != nil {
+			c.x.fail(s, "unsupported type switch")
+		}
+		sn := sumName(c.x.info.Types[subject].Type)
+		if sn == "" {
+			c.x.fail(s, "type switch on a type that is not a registered sum")
+		}
+		subj := c.expr(subject)
+		pre := c.pre
+		c.pre = nil
+		after := kont{fall: rest, brk: rest, cont: k.cont}
+		var alts []string
+		seen := map[string]bool{}
+		var dflt *ast.CaseClause
+		c.depth++
+		for _, cc := range v.Body.List {
+			cl := cc.(*ast.CaseClause)
+			if cl.List == nil {
+				dflt = cl
+				continue
+			}
+			if len(cl.List) != 1 {
+				c.x.fail(s, "type switch clause with several types")
+			}
+			tn, ok := c.x.info.Types[cl.List[0]].Type.(*types.Named)
+			if !ok {
+				c.x.fail(s, "type switch clause")
+			}
+			name := tn.Obj().Name()
+			seen[name] = true
+			v0 := "_"
+			scopeLen := len(c.scope)
+			if bound != nil {
+				if o := c.x.info.Implicits[cl]; o != nil {
+					v0 = c.declare(o)
+				}
+			}
+			body := c.stmts(cl.Body, after)
+			c.scope = c.scope[:scopeLen]
+			alts = append(alts, fmt.Sprintf("| GoSrc.S_%s.%s %s =>%s  %s", sn, leanIdent(name), v0, c.ind(), body))
+		}
+		var rem []string
+		rem = append(rem, "GoSrc.S_"+sn+".none")
+		for _, a := range xlateSums[sn] {
+			if !seen[a] {
+				rem = append(rem, fmt.Sprintf("GoSrc.S_%s.%s _", sn, leanIdent(a)))
+			}
+		}
+		dcode := ""
+		if dflt != nil {
+			dcode = c.stmts(dflt.Body, after)
+		} else {
+			dcode = rest()
+		}
+		c.depth--
+		alts = append(alts, fmt.Sprintf("| %s =>%s  %s", strings.Join(rem, " | "), c.ind(), dcode))
+		code := fmt.Sprintf("(match %s with%s%s)", subj, c.ind(), strings.Join(alts, c.ind()))
+		c.pre = pre
+		return c.flush(code)
 	case *ast.BranchStmt:
 		if v.Label != nil {
 			c.x.fail(s, "labelled branch")
@@ -1481,7 +1567,7 @@ func (c *xctx) assign(v *ast.AssignStmt) string {
 		// op-assignment
 		ops := map[token.Token]token.Token{token.ADD_ASSIGN: token.ADD, token.SUB_ASSIGN: token.SUB, token.MUL_ASSIGN: token.MUL,
 			token.AND_ASSIGN: token.AND, token.OR_ASSIGN: token.OR, token.XOR_ASSIGN: token.XOR, token.SHL_ASSIGN: token.SHL,
-			token.SHR_ASSIGN: token.SHR, token.AND_NOT_ASSIGN: token.AND_NOT}
+			token.SHR_ASSIGN: token.SHR, token.AND_NOT_ASSIGN: token.AND_NOT, token.QUO_ASSIGN: token.QUO, token.REM_ASSIGN: token.REM}
 		op, ok := ops[v.Tok]
 		if !ok {
 			c.x.fail(v, "unsupported assignment operator %s", v.Tok)
@@ -1739,7 +1825,7 @@ func genGoSrc(dir string) error {
 			return err
 		}
 		conf := types.Config{Importer: importer.ForCompiler(p.fset, "source", nil), Error: func(error) {}}
-		info := &types.Info{Types: map[ast.Expr]types.TypeAndValue{}, Uses: map[*ast.Ident]types.Object{}, Defs: map[*ast.Ident]types.Object{}, Selections: map[*ast.SelectorExpr]*types.Selection{}}
+		info := &types.Info{Types: map[ast.Expr]types.TypeAndValue{}, Uses: map[*ast.Ident]types.Object{}, Defs: map[*ast.Ident]types.Object{}, Selections: map[*ast.SelectorExpr]*types.Selection{}, Implicits: map[ast.Node]types.Object{}}
 		pkg, _ := conf.Check("github.com/ulikunitz/xz/"+rel, p.fset, p.files, info)
 		x := &xl{p: p, info: info, pkg: pkg, funcs: map[string]*xfunc{}, byObj: map[*types.Func]*xfunc{}, structs: map[string]*xstruct{}, globals: map[string]string{}, usedStructs: map[string]bool{}, usedSums: map[string]bool{}}
 		want := map[string]bool{}
